@@ -269,6 +269,7 @@ def parse_impl(o, st, at):
             e = {}
             e["act"] = d["act"]
             e["af"] = at.get(d["af"], d["af"])
+            e["afid"] = d["af"]
             e["sd"] = datetime.date.fromisoformat(d["sd"]).toordinal()
             f = lambda x: None if x is None else Fraction(x)
             e["pre"] = tuple(f(x) for x in d["pre"])
